@@ -589,7 +589,14 @@ fn judge_known_answers(j: &mut Judged, _scn: &Scenario, _tr: &Trace, _m: &TxMode
         for k in &msg.answers {
             // same record: owner (ci), type, class without flush bit... the flush bit is part of the class field on
             // the wire; the statement compares owner, type, class, RDATA
-            if k.same_data(r) && k.flush() == r.flush() {
+            if k.same_data(r) {
+                // the cache-flush bit is not part of (owner, type, class, RDATA); a known answer whose bit differs
+                // from the daemon's own record (before a legacy reply clears it) is not judged either way
+                let natural_flush = r.ty != wire::T_PTR;
+                if k.flush() != natural_flush {
+                    st = None;
+                    continue;
+                }
                 let half = r.ttl / 2;
                 if k.ttl > half {
                     return Some(true);
@@ -625,9 +632,13 @@ fn judge_known_answers(j: &mut Judged, _scn: &Scenario, _tr: &Trace, _m: &TxMode
         if is_additional_only {
             // SRV/TXT of a PTR target, or addresses of its host: judged through the PTR
             let owner_ptr_suppressed = !ptr_suppressed.is_empty() && ptr_present.is_empty();
-            let owner_ptr_present = !ptr_present.is_empty() && ptr_suppressed.is_empty();
+            // (a PTR that should be present but is missing is reported on the PTR itself, not again on its additionals)
+            let ptr_really_there = ex.required.iter().filter(|p| p.ty == wire::T_PTR && p.name.dotted() != META).all(|p| has_rec(&got, p));
+            let owner_ptr_present = !ptr_present.is_empty() && ptr_suppressed.is_empty() && ptr_really_there;
             let _ = brought_by;
-            if owner_ptr_suppressed && has_rec(&got, r) {
+            // an address may also travel as an additional of a directly asked SRV that is answered
+            let via_srv = matches!(r.ty, wire::T_A | wire::T_AAAA) && got.iter().any(|g| g.ty == wire::T_SRV && srv_target(g).map(|(h, _)| h.eq_ci(&r.name)).unwrap_or(false));
+            if owner_ptr_suppressed && has_rec(&got, r) && !via_srv {
                 j.probe("additionals-dropped-with-ptr");
                 j.fail("C10-R1", format!("{q_desc}: the PTR answer is suppressed by a known answer, but its additional {}:{} was still sent", r.name.escaped(), wire::ty_name(r.ty)));
             } else if owner_ptr_suppressed {
@@ -643,8 +654,23 @@ fn judge_known_answers(j: &mut Judged, _scn: &Scenario, _tr: &Trace, _m: &TxMode
             Some(true) => {
                 j.nontrivial = true;
                 j.probe("suppressed");
+                // the same record may legitimately travel as an additional of a PTR answer that is present
+                let ptr_answer_sent = got.iter().any(|g| g.ty == wire::T_PTR && g.name.dotted() != META);
+                if r.ty != wire::T_PTR && ptr_answer_sent {
+                    continue;
+                }
+                // ... or as an additional of a directly asked SRV that is answered
+                if matches!(r.ty, wire::T_A | wire::T_AAAA) && got.iter().any(|g| g.ty == wire::T_SRV && srv_target(g).map(|(h, _)| h.eq_ci(&r.name)).unwrap_or(false)) {
+                    continue;
+                }
                 if has_rec(&got, r) {
-                    j.fail("C10-R1", format!("{q_desc}: {}:{} is listed as known answer with TTL above half of {} but was sent anyway", r.name.escaped(), wire::ty_name(r.ty), r.ttl));
+                    // the known answer's owner is spelled in another letter case than the question?
+                    let case_note = if msg.answers.iter().any(|k| k.same_data(r) && msg.questions.iter().any(|q| q.name.eq_ci(&k.name) && q.name != k.name)) {
+                        " (the known answer spells the owner name in another letter case than the question; the daemon compares the spelling exactly)"
+                    } else {
+                        ""
+                    };
+                    j.fail("C10-R1", format!("{q_desc}: {}:{} is listed as known answer with TTL above half of {} but was sent anyway{case_note}", r.name.escaped(), wire::ty_name(r.ty), r.ttl));
                 }
             }
             Some(false) => {
@@ -653,7 +679,12 @@ fn judge_known_answers(j: &mut Judged, _scn: &Scenario, _tr: &Trace, _m: &TxMode
                     j.probe("near-miss-not-suppressed");
                 }
                 if !has_rec(&got, r) {
-                    j.fail("C10-R2", format!("{q_desc}: {}:{} must be answered (known answers listed: {:?}) but is missing; response: {}", r.name.escaped(), wire::ty_name(r.ty), msg.answers.iter().map(|k| format!("{}:{}/{}{}", k.name.escaped(), wire::ty_name(k.ty), k.ttl, if k.flush() { "!" } else { "" })).collect::<Vec<_>>(), on_chan.iter().map(|x| wire::summarize(x.msg.as_ref().unwrap())).collect::<Vec<_>>().join(" | ")));
+                    let sub_note = if r.ty == wire::T_PTR && r.name.dotted().contains("._sub.") && msg.answers.iter().any(|k| k.ty == wire::T_PTR && !k.name.dotted().contains("._sub.") && ptr_target(k).zip(ptr_target(r)).map(|(a, b)| a.eq_ci(b)).unwrap_or(false)) {
+                        " (the daemon answers a subtype question with the base-type PTR, which the listed known answer suppresses)"
+                    } else {
+                        ""
+                    };
+                    j.fail("C10-R2", format!("{q_desc}: {}:{} must be answered{sub_note} (known answers listed: {:?}) but is missing; response: {}", r.name.escaped(), wire::ty_name(r.ty), msg.answers.iter().map(|k| format!("{}:{}/{}{}", k.name.escaped(), wire::ty_name(k.ty), k.ttl, if k.flush() { "!" } else { "" })).collect::<Vec<_>>(), on_chan.iter().map(|x| wire::summarize(x.msg.as_ref().unwrap())).collect::<Vec<_>>().join(" | ")));
                 }
             }
             None => j.probe("ttl-equals-half-not-judged"),
